@@ -120,3 +120,47 @@ func VxH_C02_table_row() {
 		vx.Assert("laid-out-exactly-once:"+tag, n == 1)
 	}
 }
+
+// a container with bottom padding / border crossing the page bottom (its content fits, its
+// decoration does not): the children pushed to the next page are still laid out exactly once.
+func VxH_C02_nested_padding() {
+	doc, err := tree.NewHTML(utils.InputString("<html><body><x-x></x-x><section><x-a></x-a><x-b></x-b><x-c></x-c></section><x-d></x-d></body></html>"), "", nil, "")
+	if err != nil {
+		panic(err)
+	}
+	rng := func(id string, lo, hi pr.Float) pr.Float {
+		v := pr.Float(vx.F32(id))
+		vx.Assume(vx.And(v >= lo, v <= hi))
+		return v
+	}
+	D := func(p pr.KnownProp, v pr.DeclaredValue) tree.VxDecl { return tree.VxDecl{Prop: p, Value: v} }
+	blk := pr.Display{"block", "flow"}
+	zero := vxPxV(0)
+	tags := []string{"x-x", "x-a", "x-b", "x-c", "x-d"}
+	pb := rng("padding-bottom", 0, 40)
+	bw := pr.Float(0)
+	if vx.Bool("border-bottom") {
+		bw = rng("border-bottom-width", 1, 20)
+	}
+	rules := []tree.VxRule{
+		{Tag: "html", Decls: []tree.VxDecl{D(pr.PMarginTop, zero), D(pr.PMarginBottom, zero)}},
+		{Tag: "body", Decls: []tree.VxDecl{D(pr.PMarginTop, zero), D(pr.PMarginBottom, zero), D(pr.PMarginLeft, zero), D(pr.PMarginRight, zero)}},
+		{Tag: "section", Decls: []tree.VxDecl{D(pr.PDisplay, blk), D(pr.PPaddingBottom, vxPxV(pb)), D(pr.PBorderBottomWidth, vxPxV(bw)), D(pr.PBorderBottomStyle, pr.String("solid"))}},
+	}
+	for i, tag := range tags {
+		h := rng("h"+string(rune('0'+i)), 10, 60)
+		rules = append(rules, tree.VxRule{Tag: tag, Decls: []tree.VxDecl{D(pr.PDisplay, blk), D(pr.PHeight, vxPxV(h)), D(pr.PWidth, vxPxV(40))}})
+	}
+	pages := Layout(doc, []tree.CSS{tree.VxSheet(rules...), vxSmallPage()}, false, nil)
+	vx.Reach("laid-out")
+	prev := 0
+	for _, tag := range tags {
+		n, first, _ := vxOccurrences(pages, tag)
+		vx.Assert("laid-out-exactly-once:"+tag, n == 1)
+		vx.Assert("document-order:"+tag, first >= prev)
+		prev = first
+	}
+	if len(pages) > 1 {
+		vx.Reach("split")
+	}
+}
